@@ -13,7 +13,9 @@
  * There is no expectation in here: names are translated to numbers with the C headers, nothing more.
  *
  * script line (space separated; strings hex-encoded with a leading 'x'):
- *   id cwd sysname acc flags d1lo d1hi d1dir p1 p1fd d2lo d2hi d2dir p2 p2fd args m1 m2
+ *   id cwd sysname acc flags d1lo d1hi d1dir p1 p1fd d2lo d2hi d2dir p2 p2fd args m1 m2 swp swq
+ * swp/swq: if not empty, two nodes of the tree that are exchanged (renameat2 RENAME_EXCHANGE) before the
+ *   case and exchanged back after it: the tree is different while this call is made (both modes alike)
  * p1fd/p2fd: if not empty, a directory to open; the name becomes /proc/self/fd/<N>/<p>
  * m1/m2: <where>:<gap> placement of the string relative to a page boundary B of an mmap'ed region:
  *   static (the ordinary buffer), in (ends 100 bytes before B), end (NUL is the last byte before B),
@@ -40,6 +42,9 @@
 #endif
 #ifndef SYS_fchmodat2
 #define SYS_fchmodat2 452
+#endif
+#ifndef RENAME_EXCHANGE
+#define RENAME_EXCHANGE 2
 #endif
 #ifndef AT_EACCESS
 #define AT_EACCESS 0x200
@@ -249,7 +254,7 @@ int main(int argc, char **argv)
 {
 	int do_truth = argc > 1 && !strcmp(argv[1], "truth");
 	if (argc < 2 || (!do_truth && strcmp(argv[1], "trace"))) die("usage: pathwalk truth|trace < script", "");
-	static char line[60000], cwd[4200], p1[4300], p2[4300], pf1[4200], pf2[4200], tmpn[4200], tok[18][8500];
+	static char line[60000], cwd[4200], p1[4300], p2[4300], pf1[4200], pf2[4200], tmpn[4200], swp[4200], swq[4200], tok[20][8500];
 	static char t1f[9000], t1n[9000], t2f[9000], t2n[9000], buf[4096];
 	static struct dspec d1, d2;
 	static char strarg[] = "zz/tgt";
@@ -263,10 +268,10 @@ int main(int argc, char **argv)
 	while (fgets(line, sizeof line, stdin)) {
 		int n = 0, i;
 		char *sv, *t;
-		for (t = strtok_r(line, " \n", &sv); t && n < 18; t = strtok_r(0, " \n", &sv))
+		for (t = strtok_r(line, " \n", &sv); t && n < 20; t = strtok_r(0, " \n", &sv))
 			cpy(tok[n++], sizeof tok[0], t);
 		if (n == 0) continue;
-		if (n != 18) die("bad script line", tok[0]);
+		if (n != 20) die("bad script line", tok[0]);
 		unhex(tok[1], cwd, sizeof cwd);
 		long nr = -1;
 		for (i = 0; sysnr[i].n; i++)
@@ -284,6 +289,10 @@ int main(int argc, char **argv)
 		unhex(tok[12], d2.dir, sizeof d2.dir);
 		unhex(tok[13], p2, sizeof p2);
 		unhex(tok[14], pf2, sizeof pf2);
+		unhex(tok[18], swp, sizeof swp);
+		unhex(tok[19], swq, sizeof swq);
+		if (swp[0] && syscall(SYS_renameat2, (long)AT_FDCWD, swp, (long)AT_FDCWD, swq, (long)RENAME_EXCHANGE))
+			die("exchange", swp);
 		if (chdir(cwd)) die("chdir", cwd);
 		dprep(&d1);
 		dprep(&d2);
@@ -356,6 +365,8 @@ int main(int argc, char **argv)
 		if (d2.fd >= 0) close(d2.fd);
 		if (afd1 >= 0) close(afd1);
 		if (afd2 >= 0) close(afd2);
+		if (swp[0] && syscall(SYS_renameat2, (long)AT_FDCWD, swp, (long)AT_FDCWD, swq, (long)RENAME_EXCHANGE))
+			die("exchange back", swp);
 	}
 	fflush(stdout);
 	return 0;
